@@ -1,12 +1,14 @@
 import AwsVerif.Model.Heap
+import AwsVerif.Gen.HeapIdx
 /-!
 Model of `source/task_scheduler.c` on top of the priority-queue model.
 
 * `asap`, `timedList`, `running` — the intrusive lists `asap_list`, `timed_list` and the local
   `running_list` of `s_run_all` as lists of task ids.  `task->node.next != NULL` ("linked into some
   list") is membership in one of the three.
-* `timed` — `timed_queue`: heap of `(key := timestamp, uid := task id)`; the handle of task `t`
-  (`task->priority_queue_node`) is handle `t` of that heap.
+* `timed` — `timed_queue`: the C06 heap (`Model/Heap.lean`) of `(key := timestamp, uid := task id)` with the
+  comparator `tsCmp` = `s_compare_timestamps` as *generated* from task_scheduler.c on every run
+  (`Gen/HeapIdx.lean`); the handle of task `t` (`task->priority_queue_node`) is handle `t` of that heap.
 * `ts t`, `scheduled t` — `task->timestamp`, `task->abi_extension.scheduled`.
 * `failPush` — forced-failure switch: while set, `aws_priority_queue_push_ref` in
   `schedule_future` fails and the sorted insertion into `timed_list` is taken (in the harness the
@@ -27,6 +29,12 @@ namespace AwsVerif.Sched
 open AwsVerif.Heap
 
 def UINT64_MAX : Nat := 2^64 - 1
+
+/-- `queue->pred(a, b) > 0` of the timed queue: the generated `s_compare_timestamps` applied to the two tasks'
+`uint64_t` timestamps; its `int` result (32-bit two's complement) is positive iff it lies in `(0, 2^31)` -/
+def tsCmp : Cmp :=
+  ⟨fun a b => decide (0 < Gen.HeapIdx.s_compare_timestamps (a % 2^64) (b % 2^64) ∧
+                      Gen.HeapIdx.s_compare_timestamps (a % 2^64) (b % 2^64) < 2^31)⟩
 
 inductive Status where
   | run       -- AWS_TASK_STATUS_RUN_READY
@@ -100,7 +108,7 @@ def insertSorted (ts : Nat → Nat) (time : Nat) (t : Nat) : List Nat → List N
 def scheduleFutureU (s : St) (t : Nat) (time : Nat) : St :=
   let q0 := nodeInit s.timed t
   let ts := updF s.ts t time
-  let r := if s.failPush then (q0, some Err.unsupported) else pushRef q0 ⟨time, t⟩ (some t)
+  let r := if s.failPush then (q0, some Err.unsupported) else pushRef tsCmp q0 ⟨time, t⟩ (some t)
   match r.2 with
   | none =>
     { s with timed := r.1, ts := ts, scheduled := updF s.scheduled t true, gen := updF s.gen t (s.gen t + 1),
@@ -126,7 +134,7 @@ def hasTasks (s : St) : Bool × Nat :=
 
 /-- `aws_priority_queue_pop` + `push_back(&running_list, …)` -/
 def takeHeap (s : St) : St :=
-  match pop s.timed with
+  match pop tsCmp s.timed with
   | (q', .ok e) => { s with timed := q', running := s.running ++ [e.uid] }
   | (q', .error _) => { s with timed := q' }
 
@@ -175,7 +183,7 @@ from the heap by handle (the return value of `aws_priority_queue_remove` is igno
 def unlink (s : St) (t : Nat) : St :=
   if t ∈ s.asap ∨ t ∈ s.timedList ∨ t ∈ s.running then
     { s with asap := s.asap.erase t, timedList := s.timedList.erase t, running := s.running.erase t }
-  else if s.scheduled t then { s with timed := (remove s.timed t).1 }
+  else if s.scheduled t then { s with timed := (remove tsCmp s.timed t).1 }
   else s
 
 def skip (s : St) : St := { s with skipped := s.skipped + 1 }
